@@ -14,9 +14,9 @@ FILES = {
     "C06": [("C06Generic", ["Scc.Backend.Generic", "Scc.Backend.Mock", "Scc.Backend.AbstractMachine"]), ("C06X86", ["Scc.X86.Backend", "Scc.X86.Machine"]), ("C06X86Heap", []), ("C06X86Full", []), ("C09Refine", [])],
     "C07": [("C06Generic", ["Scc.Backend.Generic"]), ("C07A64", ["Scc.A64.Backend", "Scc.A64.Machine"]), ("C07A64Int", []), ("C07A64Heap", []), ("C07A64Full", [])],
     "C08": [("C06Generic", ["Scc.Backend.Generic"]), ("C08RV", ["Scc.RV.Backend", "Scc.RV.Machine"]), ("C08RVInt", []), ("C08RVHeap", []), ("C08RVClo", [])],
-    "C09": [("C09", ["Scc.Heap.Model", "Scc.Heap.Inv"]), ("C09Refine", []), ("C09X86", [])],
-    "C10": [("C10", ["Scc.Heap.Model"]), ("C10X86", [])],
-    "C13": [("C13X86", ["Scc.X86.Machine"]), ("C13A64", ["Scc.A64.Machine"]), ("C13Loader", []), ("C13X86Data", [])],
+    "C09": [("C09", ["Scc.Heap.Model", "Scc.Heap.Inv"]), ("C09Refine", []), ("C09X86", []), ("C09X86All", []), ("C09X86Mon", [])],
+    "C10": [("C10", ["Scc.Heap.Model"]), ("C10X86", []), ("C10X86All", [])],
+    "C13": [("C13X86", ["Scc.X86.Machine"]), ("C13A64", ["Scc.A64.Machine"]), ("C13Loader", []), ("C13X86Data", []), ("C13X86All", [])],
     "C14": [("C14Generic", []), ("C14X86", []), ("C14A64", []), ("C14RV", []), ("C14Loader", []), ("C14LoaderA64", []), ("C14LoaderA64Names", []), ("C14LoaderA64Compose", [])],
     "C15": [("C15", ["Scc.Fun.Check", "Scc.Fun.Typing"])],
     "C16": [("C16", ["Scc.Fun.Lex", "Scc.Fun.Parse", "Scc.Fun.Print"]), ("C18Cur", ["Scc.Generated.Parser"])],
@@ -25,7 +25,7 @@ FILES = {
     # C12 = the chain of preservation/no-panic theorems of the individual passes
     "C12": [("C12Final", []), ("C12", ["Scc.Pipeline"]), ("C12Codegen", []), ("C12Fun2Core", []), ("C12Fun2CoreStrict", []), ("C12Mid", []), ("C15", ["Scc.Fun.Check"]), ("C02", ["Scc.Fun2Core.Model"]), ("C03", ["Scc.Core.Focus"]), ("C04", ["Scc.Core2AxCut.Model"]), ("C05", ["Scc.AxCut.Linearize"])],
     # C01 = composition theorem over the whole pipeline model + its links
-    "C01": [("C01Final", []), ("C01", ["Scc.Pipeline"]), ("C01Checks", []), ("C01Loader", []), ("C06Capacity", []), ("C06X86Heap", []), ("C12", []), ("C20Full", []), ("C02Sem", []), ("C02SemSafe", []), ("C02SemFull", []), ("C06X86Full", []), ("C03", []), ("C04Sem", []), ("C06Generic", [])],
+    "C01": [("C01End", []), ("C01Final", []), ("C01", ["Scc.Pipeline"]), ("C01Checks", []), ("C01Loader", []), ("C06Capacity", []), ("C06X86Heap", []), ("C12", []), ("C20Full", []), ("C02Sem", []), ("C02SemSafe", []), ("C02SemFull", []), ("C06X86Full", []), ("C03", []), ("C04Sem", []), ("C06Generic", [])],
 }
 
 def theorems(path):
